@@ -32,6 +32,8 @@ type Processor[K comparable, T Queueable[K]] struct {
 	stopCh             chan struct{}
 	resetCh            chan struct{}
 	stopped            atomic.Bool
+	// closedCh is closed once the Close call that stopped the processor holds the running token
+	closedCh chan struct{}
 }
 
 // NewProcessor returns a new Processor object.
@@ -44,6 +46,7 @@ func NewProcessor[K comparable, T Queueable[K]](executeFn func(r T)) *Processor[
 		stopCh:             make(chan struct{}),
 		resetCh:            make(chan struct{}, 1),
 		clock:              kclock.RealClock{},
+		closedCh:           make(chan struct{}),
 	}
 }
 
@@ -98,9 +101,13 @@ func (p *Processor[K, T]) Close() error {
 		close(p.stopCh)
 		// Blocks until processor loop ends
 		p.processorRunningCh <- struct{}{}
+		close(p.closedCh)
 		return nil
 	}
 
+	// Another Close call is stopping the processor: wait until it holds the running token,
+	// so that no loop can start (or be running) any more when this call returns too
+	<-p.closedCh
 	return nil
 }
 
